@@ -386,6 +386,81 @@ def c_sampling_cache(ctx, it, cfg):
 
 
 # evaluating a size alone or inside an array gives the same interfacial compositions (growth law contract shared with C12)
+MTH = 'kawin.thermo.MultiTherm'
+
+
+@REG.contract('MulticomponentThermodynamics/callers-options-reach-the-equilibrium-query', [MTH + ':MulticomponentThermodynamics.getGrowthAndInterfacialComposition',
+              MTH + ':MulticomponentThermodynamics.impingementFactor'], configs=[dict(name=p, phase=p) for p in ('default-phase', 'named-phase')])
+def c_mt_options(ctx, it, cfg):
+    """growth and impingement queries hand the curvature (equilibrium) query the caller's composition, temperature, precipitate phase, cache option and search
+    direction -- whether cached equilibria are kept or discarded is the CALLER's choice -- and a failed equilibrium is reported as None, never answered from an earlier point"""
+    seen = []
+    answers = []
+    mod = it.load(MTH)
+
+    def curvatureFactor(x, T, precPhase=None, removeCache=False, searchDir=None):
+        seen.append((x, T, precPhase, removeCache, searchDir))
+        return answers[len(seen) - 1]
+    th = new_obj(it, MTH, 'MulticomponentThermodynamics', phases=['FCC_A1', 'GAMMA_PRIME', 'DELTA'], elements=['NI', 'AL', 'CR', 'VA'], numElements=3,
+                 curvatureFactor=curvatureFactor, _curvature_outputs={})
+    x = NP.array([real(ctx, 'x0'), real(ctx, 'x1')])
+    T = real(ctx, 'T', lambda v: v > 0)
+    rc = boolean(ctx, 'removeCache')
+    sd = object()
+    named = 'DELTA' if cfg['phase'] == 'named-phase' else None
+    want_phase = 'DELTA' if named else 'GAMMA_PRIME'
+    kw = dict(precPhase=named) if named else {}
+    answers.append(None)
+    r = th.getGrowthAndInterfacialComposition(x, T, real(ctx, 'dG'), NP.array([real(ctx, 'R', lambda v: v > 0)]), NP.array([real(ctx, 'gE')]), removeCache=rc, searchDir=sd, **kw)
+    ctx.prove('growth/failed-equilibrium-is-reported-as-None', r is None)
+    ctx.prove('growth/query-made-once-with-the-callers-point-phase-and-options', len(seen) == 1 and seen[0][0] is x and seen[0][1] is T and seen[0][2] == want_phase and seen[0][3] is rc and seen[0][4] is sd)
+    beta = real(ctx, 'beta_answer')
+    answers.append(mod.env['CurvatureOutput'](dc=None, mc=None, gba=None, beta=beta, c_eq_alpha=None, c_eq_beta=None))
+    b = th.impingementFactor(x, T, removeCache=rc, searchDir=sd, **kw)
+    ctx.prove('impingement/answer-is-that-of-the-query', eq(b, beta))
+    # a failed equilibrium during an impingement query is answered with the last valid value of THAT phase (the run survives the fault) -- whatever the cache option
+    last = real(ctx, 'last_valid_beta')
+    th.fields['_curvature_outputs'] = {want_phase: mod.env['CurvatureOutput'](dc=None, mc=None, gba=None, beta=last, c_eq_alpha=None, c_eq_beta=None),
+                                       'OTHER': mod.env['CurvatureOutput'](dc=None, mc=None, gba=None, beta=real(ctx, 'beta_of_another_phase'), c_eq_alpha=None, c_eq_beta=None)}
+    answers.append(None)
+    b2 = th.impingementFactor(x, T, removeCache=rc, searchDir=sd, **kw)
+    ctx.prove('impingement/failed-equilibrium-is-not-reported-as-None', b2 is not None)
+    if b2 is not None:
+        ctx.prove('impingement/failed-equilibrium-answered-with-the-last-valid-value-of-this-phase', eq(b2, last))
+    del seen[2:]
+    ctx.prove('impingement/query-made-once-with-the-callers-point-phase-and-options', len(seen) == 2 and seen[1][0] is x and seen[1][1] is T and seen[1][2] == want_phase and seen[1][3] is rc and seen[1][4] is sd)
+
+
+@REG.contract('MulticomponentThermodynamics.getInterfacialComposition/batch-equals-point-by-point', [MTH + ':MulticomponentThermodynamics.getInterfacialComposition'],
+              configs=[dict(name='n=%d,T=%s' % (n, tf), n=n, tf=tf) for n in (1, 2, 3) for tf in ('scalar', 'array')],
+              bounded='batches of at most 3 conditions (the code iterates over the batch in a Python comprehension); temperatures, energies and answers symbolic')
+def c_mt_batch(ctx, it, cfg):
+    """entry i of a batched query is the single-point query at (x, T_i, gExtra_i, resolved phase): evaluating a condition alone or inside an array changes nothing"""
+    n = cfg['n']
+    seen = []
+
+    def single(x, T, g, precPhase):
+        seen.append((x, T, g, precPhase))
+        k = len(seen)
+        return NP.array([real(ctx, 'ca%d_%d' % (k, e)) for e in range(2)]), NP.array([real(ctx, 'cb%d_%d' % (k, e)) for e in range(2)])
+    th = new_obj(it, MTH, 'MulticomponentThermodynamics', phases=['FCC_A1', 'GAMMA_PRIME'], elements=['NI', 'AL', 'CR', 'VA'], numElements=3, _interfacialComposition=single)
+    x = NP.array([real(ctx, 'x0'), real(ctx, 'x1')])
+    Ts = [real(ctx, 'T%d' % i, lambda v: v > 0) for i in range(n)]
+    gs = [real(ctx, 'g%d' % i) for i in range(n)]
+    T = Ts[0] if cfg['tf'] == 'scalar' else NP.array(Ts)
+    ca, cb = th.getInterfacialComposition(x, T, NP.array(gs))
+    ctx.prove('one-single-point-query-per-condition', len(seen) == n)
+    for i in range(min(n, len(seen))):
+        Ti = Ts[0] if cfg['tf'] == 'scalar' else Ts[i]
+        ctx.prove('condition-%d-queried-at-its-own-temperature-and-energy' % i, and_(seen[i][0] is x, eq(seen[i][1], Ti), eq(seen[i][2], gs[i]), seen[i][3] == 'GAMMA_PRIME'))
+        for e in range(2):
+            got_a = ca.get(i, e) if n > 1 else ca.get(e)
+            got_b = cb.get(i, e) if n > 1 else cb.get(e)
+            ctx.prove('entry-%d-is-the-answer-of-query-%d[el%d]' % (i, i, e), and_(eq(got_a, real(ctx, 'ca%d_%d' % (i + 1, e))), eq(got_b, real(ctx, 'cb%d_%d' % (i + 1, e)))))
+    if n >= 2 and cfg['tf'] == 'array':
+        ctx.prove('canary/every-condition-at-the-first-temperature', eq(seen[1][1], Ts[0]), expect='refuted')
+
+
 from . import c12 as _c12
 REG.contracts.append(_c12.c_curv_growth.contract)
 # the impingement-rate functions on arrays: entry i is computed from point i only, with the caller's cache option, and leave the cached geometric factors alone (C14 contract)
